@@ -70,6 +70,7 @@ fn main() {
         case_no: 0,
         budget: get("budget", "0").parse().unwrap_or(0),
         budget_hit: false,
+        fuzz: None,
     };
     if ctx.nshards == 0 { ctx.nshards = 1; }
 
